@@ -257,6 +257,8 @@ def string_groups():
               covers=['end'], replace=['cstl_%sstring_insert_str_n' % W_], defs=['-DVF_G_insert', '-DVF_G_insert_str_n', '-DVF_INS_NEW', '-DVF_ASSUMED_POST'])
             if not fam:
                 g('swap', ['C10'], 'h_sswap', 'cstl_%sstring_swap' % W_, 'swap: the two string objects exchange storage, size and capacity, nothing else is written', defs=['-DVF_G_sswap'])
+            g('reserve', ['C10', 'C16'], 'h_reserve', 'cstl_%sstring_reserve' % W_, 'reserve: never shrinks, quiet no-op when the growth cannot be had (allocation failure or sz+1 unrepresentable); size, characters, terminator untouched (vector.c inlined down to realloc)', defs=['-DVF_G_reserve'])
+            g('clear', ['C10'], 'h_sclear', 'cstl_%sstring_clear' % W_, 'clear: storage released, the string equals a freshly initialised one', defs=['-DVF_G_reserve'])
             g('at', ['C10'], 'h_at', 'cstl_%sstring_at' % ('w' if w == 'wide' else ''), 'at: abort iff index >= size', covers=['abort'] if fam else ['end', 'abort'])
             g('str', ['C10'], 'h_str', 'cstl_%sstring_str' % ('w' if w == 'wide' else ''), 'str: size characters followed by NUL')
             if not fam:
